@@ -36,6 +36,11 @@ def run(job):
     clean()
     SR.reset(None)
     res = {"exc": None}
+    import signal
+    def _alarm(signum, frame):
+        raise TimeoutError("front-end exceeded the per-job time limit")
+    signal.signal(signal.SIGALRM, _alarm)
+    signal.alarm(int(job.get("time_limit", 60)))
     try:
         if job["fe"] == "api":
             g = IG.classes()[v](**cfg)
@@ -64,12 +69,19 @@ def run(job):
             main(argv)
     except BaseException as e:  # noqa
         res["exc"] = type(e).__name__
+    finally:
+        signal.alarm(0)
     res["files"] = read_files()
     res["log"] = list(SR.LOG)
     return res
 
 
 def main():
+    import resource
+    try:   # a runaway allocation must fail the job (MemoryError), not the machine
+        resource.setrlimit(resource.RLIMIT_AS, (12 << 30, 12 << 30))
+    except Exception:  # noqa
+        pass
     SR.install()
     os.makedirs("bin", exist_ok=True)
     os.makedirs(os.path.join("toccata", "results"), exist_ok=True)
